@@ -651,15 +651,30 @@ fn jclass(op: &JOp, hdr_seen: &mut u32, trunc_seen: &mut u32) -> String {
     }
 }
 
-/// Number of journal operations that precede the first operation of class `pc`.
+/// Number of journal operations that precede program counter `pc` of spec/HcStore.tla: the
+/// operations of all earlier phases.  (A phase may be empty in the real call - an empty core has
+/// no page or node to flush - so the position is found by phase order, not by looking for an
+/// operation of that very class.)
 fn prefix_for_pc(jops: &[JOp], pc: &str) -> usize {
+    fn rank(c: &str) -> usize {
+        match c {
+            "a_data" => 0,
+            "entry" | "a_entry" | "c_entry" => 1,
+            "a_commit" => 2,
+            "c_del" => 2,
+            "f_pages" => 3,
+            "f_nodes" => 4,
+            "f_hdr" => 5,
+            "f_trunc" => 6,
+            "f_hdr2" => 7,
+            "f_trunc2" => 8,
+            _ => 9, // "ret", "idle": the call has issued all its operations
+        }
+    }
     let (mut h, mut t) = (0, 0);
-    let want = match pc {
-        "a_entry" | "c_entry" => "entry",
-        x => x,
-    };
+    let want = rank(pc);
     for (k, o) in jops.iter().enumerate() {
-        if jclass(o, &mut h, &mut t) == want {
+        if rank(&jclass(o, &mut h, &mut t)) >= want {
             return k;
         }
     }
@@ -719,7 +734,9 @@ impl Driver {
                     let mut cut: i64 = -1;
                     if torn && k < jops.len() {
                         if let JKind::Write { data, .. } = &jops[k].kind {
-                            cut = (data.len() / 2) as i64;
+                            // inside the framed payload: the model's torn write is one that
+                            // damages the unit (a cut in trailing zero padding would complete it)
+                            cut = (data.len() / 2).min(40) as i64;
                             apply_torn(&mut img, &jops[k], cut as usize);
                         }
                     }
